@@ -4,7 +4,7 @@ patch="$1"; shift
 cd /repo || exit 9
 if [ -n "$(git status --porcelain --untracked-files=no)" ]; then echo "/repo not clean"; exit 9; fi
 if ! git apply --check "$patch" 2>/dev/null; then
-  if git apply --3way --check "$patch" 2>/dev/null; then git apply --3way "$patch"; else echo "PATCH DOES NOT APPLY: $patch"; exit 8; fi
+  if ! git apply --3way "$patch" >/dev/null 2>&1 || grep -rq '^<<<<<<< ' src 2>/dev/null; then git reset -q --hard HEAD; echo "PATCH DOES NOT APPLY (conflict): $patch"; exit 8; fi
 else git apply "$patch"; fi
 cd /verif
 for id in "$@"; do
@@ -12,4 +12,4 @@ for id in "$@"; do
   echo "== $id exit=$rc :: $(echo "$out" | grep -c '^VIOLATION') violations :: $(echo "$out" | grep -m1 'role=' | cut -c1-220)"
   echo "$out" | grep "INCONCLUSIVE" | head -3 | cut -c1-250
 done
-git -C /repo checkout -- . ; git -C /repo status --porcelain --untracked-files=no | head -3
+git -C /repo reset -q --hard HEAD ; git -C /repo status --porcelain --untracked-files=no | head -3
